@@ -1,7 +1,7 @@
 CONSTANTS
   Dev = {"MissingComma"}
-  Alphabet <- AlphaObj
-  MaxLen = 6
+  Alphabet <- AlphaMem
+  MaxLen = 4
   DepthProbe = {256}
 INIT Init
 NEXT Next
